@@ -375,14 +375,145 @@ pub fn exec_sweep(c: &SweepCase, out: &mut CaseOut) -> Result<(), Fail> {
     Ok(())
 }
 
+// ---------------------------------------------------------------------------------------
+// every datagram of simulated clusters (joins, a crash, a leave, a partition and its healing)
+// ---------------------------------------------------------------------------------------
+
+#[derive(Clone, Debug, Serialize, Deserialize)]
+pub struct TrafficCase {
+    pub spec: crate::cluster::ClusterSpec,
+    pub crash: u16,
+    pub leave: u16,
+    pub split: u16,
+}
+
+pub struct TrafficPart;
+
+pub fn exec_traffic(c: &TrafficCase, out: &mut CaseOut) -> Result<(), Fail> {
+    use crate::sim::*;
+    let spec = &c.spec;
+    let n = spec.n as usize;
+    let period = spec.period_us();
+    let limit = spec.cfg.max_packet as usize;
+    let codec = spec.codec;
+    let mut datagrams = 0u64;
+    let mut kinds: std::collections::BTreeSet<&'static str> = Default::default();
+    let mut tight = 0u64;
+    let mut check = |sim: &Sim, info: &StepInfo| -> Result<(), Fail> {
+        crate::cluster::panic_or_err(info, "C07", true)?;
+        // a delivered datagram emitted by a correct peer must never be a decode / framing / size error
+        if let (Some(_), Some((k, msg))) = (&info.delivered_bytes, &info.err) {
+            ensure!(
+                !matches!(k, ErrKind::Decode | ErrKind::MalformedPacket | ErrKind::DataTooBig),
+                "C07:peer-rejects",
+                "node{} rejected a datagram emitted by its peer ({:?}) with {:?}: {}",
+                info.node,
+                info.delivered_kind,
+                k,
+                msg
+            );
+        }
+        let id_after = sim.identity(info.node);
+        for (to, bytes) in &info.sent_bytes {
+            datagrams += 1;
+            let d = wire::parse(bytes, codec).map_err(|e| Fail::new("C07:unparseable-send", format!("node{} emitted a datagram that does not follow the grammar: {e}: {}", info.node, wire::hex(bytes))))?;
+            let kind = kind_name(&d.header.message);
+            kinds.insert(kind);
+            ensure!(bytes.len() <= limit, "C07:exceeds-max-packet-size", "{kind} of {} bytes exceeds max_packet_size {limit}", bytes.len());
+            ensure!(d.header.dst == *to, "C07:dst-mismatch", "{kind} handed over for {to} says dst={}", d.header.dst);
+            ensure!(
+                d.header.src == info.identity_before || d.header.src == id_after,
+                "C07:src-not-current-identity",
+                "{kind} emitted by node{} has src {} but its identity is {} -> {}",
+                info.node,
+                d.header.src,
+                info.identity_before,
+                id_after
+            );
+            if piggybacks(&d.header.message) && d.members.is_none() {
+                ensure!(limit.saturating_sub(d.header_len) <= 2, "C07:missing-member-section", "{kind} without member count although {} bytes were free", limit - d.header_len);
+            }
+            if d.header.message == Message::Feed {
+                let mut seen = std::collections::BTreeSet::new();
+                for m in d.members.iter().flatten() {
+                    ensure!(m.id() != to && *m.id() != d.header.src, "C07:feed-lists-receiver-or-sender", "Feed to {to} lists {}", m.id());
+                    ensure!(seen.insert(*m.id()), "C07:feed-duplicate", "Feed lists {} twice", m.id());
+                    ensure!(m.state() != State::Down, "C07:feed-lists-down", "Feed lists {} as Down", m.id());
+                }
+            }
+            if limit - bytes.len() < 8 {
+                tight += 1;
+            }
+        }
+        Ok(())
+    };
+    // formation with the recorder on
+    crate::cluster::KEEP_SENT.with(|k| k.set(true));
+    let formed = crate::cluster::form(spec, &mut check);
+    crate::cluster::KEEP_SENT.with(|k| k.set(false));
+    let (mut sim, _t) = formed?;
+    let t0 = sim.now;
+    sim.run_until(t0 + (n as u64 + 3) * period, &mut check)?;
+    // a crash, then a leave, then a partition and its healing
+    let crash = ((c.crash as usize) * n) >> 16;
+    sim.crash(crash);
+    sim.run_until(sim.now + (n as u64 + 6) * period, &mut check)?;
+    let leave = ((c.leave as usize) * n) >> 16;
+    if leave != crash {
+        let info = sim.call(leave, Call::Leave);
+        check(&sim, &info)?;
+        sim.nodes[leave].left_at = Some(sim.now);
+    }
+    sim.run_until(sim.now + 4 * period, &mut check)?;
+    let k = 1 + ((c.split as usize) * (n / 2).max(1) >> 16);
+    sim.partition = Some((0..k).collect());
+    sim.run_until(sim.now + (n as u64 + 8) * period, &mut check)?;
+    sim.partition = None;
+    sim.run_until(sim.now + (n as u64 + 8) * period, &mut check)?;
+    out.sub_evaluations += datagrams;
+    out.class_n("simulated_cluster_datagrams", datagrams);
+    out.class_n("datagrams_within_8_bytes_of_the_limit", tight);
+    if tight > 0 {
+        out.nontrivial((n, codec, kinds.iter().collect::<Vec<_>>(), (limit / 16).min(12)));
+    }
+    Ok(())
+}
+
+impl Part for TrafficPart {
+    type Case = TrafficCase;
+    fn name(&self) -> &'static str {
+        "simulated-cluster-traffic"
+    }
+    fn strategy(&self, _t: Tier) -> BoxedStrategy<TrafficCase> {
+        let mut p = crate::cluster::ClusterProfile::default();
+        p.n = (3, 9);
+        p.max_tx = (1, 10);
+        p.renew = vec![RENEW_NONE, RENEW_NEXT, RENEW_NEXT];
+        p.announce_down = Some((2, 5));
+        p.packet = vec![(40, 120), (40, 120), (120, 400), (1400, 1401)];
+        p.codecs = ALL_CODECS.to_vec();
+        (crate::cluster::cluster_spec(&p), any::<u16>(), any::<u16>(), any::<u16>()).prop_map(|(spec, crash, leave, split)| TrafficCase { spec, crash, leave, split }).boxed()
+    }
+    fn cases(&self, tier: Tier) -> u64 {
+        tier.pick(1_500, 60_000)
+    }
+    fn exec(&self, c: &TrafficCase, out: &mut CaseOut) -> Result<(), Fail> {
+        exec_traffic(c, out)
+    }
+    fn max_shrink_iters(&self) -> u32 {
+        300
+    }
+}
+
 pub fn run(ctx: &Ctx, report: &mut Report) -> EvidenceMeta {
+    ctx.run_part(&TrafficPart, report);
     let cases = sweep_cases(ctx.tier);
     ctx.run_enum("packet-size-sweep", cases.len() as u64, |i| cases[i as usize].clone(), exec_sweep, report, false);
     report.extra.insert("packet_size_sweep".into(), json!({"scripts": cases.len(), "packet_sizes": format!("4..={} one byte at a time", ctx.tier.pick(120, 220)), "codecs": 4, "loads": 5}));
     ctx.run_part(&LoadedPart, report);
     EvidenceMeta {
         level: "exploration",
-        rule: "every datagram handed to the runtime in (1) a scripted emission of every message kind (API sends, probe timers, replies to Ping/PingReq/IndirectPing/IndirectAck/Announce, TurnUndead to a Down sender, refutation, renewal, leave) repeated for each max_packet_size from 4 bytes upward one byte at a time (through header + several members + several items), 5 backlog loads and 4 codecs (FixCodec, VarCodec, bundled postcard, bundled bincode); (2) proptest random histories preloaded with 0..300 members, pending updates and 0..12 custom items of 2..400 bytes at packet sizes 6..65535 incl. set_config packet-size changes. Oracle: an independent grammar parser (header, [u16 count, exactly count members], {u16 len, len>0 bytes}*, nothing else; Announce/TurnUndead header only; Broadcast without member section; a piggybacking kind may omit the count only when <= 2 bytes are free after the header), len <= max_packet_size, header.src = identity at send time (identity chain), src_incarnation within the sender's incarnation during the call, header.dst = the identity handed to send_to, Feed members = active records of the sender other than receiver and sender without duplicates; then a fresh peer with identity dst, same codec and packet size must not answer Decode, MalformedPacket or DataTooBig. Non-trivial: a datagram for which the pending updates + items exceeded the free space after the header (or a Feed shorter than the active set); distinct = (kind, codec, #members, #items, bytes left)."
+        rule: "every datagram handed to the runtime in (1) a scripted emission of every message kind (API sends, probe timers, replies to Ping/PingReq/IndirectPing/IndirectAck/Announce, TurnUndead to a Down sender, refutation, renewal, leave) repeated for each max_packet_size from 4 bytes upward one byte at a time (through header + several members + several items), 5 backlog loads and 4 codecs (FixCodec, VarCodec, bundled postcard, bundled bincode); (3) every datagram of simulated clusters of 3..9 members (joins, a crash, a graceful leave, a partition and its healing; 4 codecs; packet sizes 40..400 and 1400) judged by the same grammar/size/src/dst/Feed rules and by the real receiver's result; (2) proptest random histories preloaded with 0..300 members, pending updates and 0..12 custom items of 2..400 bytes at packet sizes 6..65535 incl. set_config packet-size changes. Oracle: an independent grammar parser (header, [u16 count, exactly count members], {u16 len, len>0 bytes}*, nothing else; Announce/TurnUndead header only; Broadcast without member section; a piggybacking kind may omit the count only when <= 2 bytes are free after the header), len <= max_packet_size, header.src = identity at send time (identity chain), src_incarnation within the sender's incarnation during the call, header.dst = the identity handed to send_to, Feed members = active records of the sender other than receiver and sender without duplicates; then a fresh peer with identity dst, same codec and packet size must not answer Decode, MalformedPacket or DataTooBig. Non-trivial: a datagram for which the pending updates + items exceeded the free space after the header (or a Feed shorter than the active set); distinct = (kind, codec, #members, #items, bytes left)."
             .into(),
         assumptions: vec![
             "the receiving peer uses a handler that accepts every item (handler errors are not decode/malformed errors)".into(),
@@ -394,6 +525,7 @@ pub fn run(ctx: &Ctx, report: &mut Report) -> EvidenceMeta {
 pub fn replay(part_name: &str, case: &Value) -> Option<Result<(), Fail>> {
     match part_name {
         "loaded-histories" => Some(replay_with(&LoadedPart, case)),
+        "simulated-cluster-traffic" => Some(replay_with(&TrafficPart, case)),
         "packet-size-sweep" => Some((|| {
             let c: SweepCase = serde_json::from_value(case.clone()).map_err(|e| Fail::new("replay:bad-file", e.to_string()))?;
             exec_sweep(&c, &mut CaseOut::default())
